@@ -382,6 +382,9 @@ Proof. intros Hb Hp. apply for_list_inv; auto. Qed.
 Section Char.
 Variables (z x zgrad xgrad : arr T) (zend xend zsrc xsrc stepsize : T) (max_step : Z) (hg : bool).
 
+(* carrier used to walk through the generated definition before choosing the witnesses *)
+Definition ign {X} (G : Prop) (r : X) : Prop := G.
+
 Lemma ray2d_core_char :
   hull2 z x zend xend = true ->
   exists (cond : St2 -> bool) (body : St2 -> ctl St2) (s0 : St2),
@@ -392,12 +395,20 @@ Lemma ray2d_core_char :
      s_ray s0 = set_sub (full [max_step; 2] (nofZ 0)) [0] (of_list [zend; xend]) /\ InvS s0) /\
     (forall s, InvS s -> step_spec hg max_step (nfree_max2 z x stepsize) z x s (body s)).
 Proof.
-  intros Hh. do 3 eexists. split; [|split].
+  intros Hh.
+  lazymatch goal with |- ?G =>
+    change (ign G (u_ray2d_core_v 0%nat z x zgrad xgrad zend xend zsrc xsrc stepsize max_step hg)) end.
+  unfold u_ray2d_core_v. pull_lets.
+  lazymatch goal with |- ign ?G (if _ then _ else ?e) => change (ign G e) end.
+  pull_lets.
+  repeat match goal with v := _ |- _ => subst v end.
+  lazymatch goal with |- ign _ (rbind (while_fuel _ ?C ?B ?s0) _) => unfold ign; exists C, B, s0 end.
+  split; [|split].
   - intros fuel. unfold u_ray2d_core_v.
     repeat pull_let_eq.
     apply if_negb_true; [exact Hh|].
     repeat pull_let_eq.
-    repeat match goal with x := _ |- _ => subst x end.
+    repeat match goal with v := _ |- _ => subst v end.
     reflexivity.
   - split; [reflexivity|]. split; [reflexivity|]. split; [reflexivity|]. split; [reflexivity|].
     split; [apply vec2_of_list|reflexivity].
